@@ -9,6 +9,7 @@ require (
 	github.com/bufbuild/buf v0.0.0
 	github.com/google/uuid v1.6.0
 	github.com/klauspost/compress v1.18.0
+	golang.org/x/crypto v0.37.0
 	google.golang.org/protobuf v1.36.6
 )
 
@@ -45,7 +46,6 @@ require (
 	go.opentelemetry.io/otel v1.35.0 // indirect
 	go.opentelemetry.io/otel/metric v1.35.0 // indirect
 	go.opentelemetry.io/otel/trace v1.35.0 // indirect
-	golang.org/x/crypto v0.37.0 // indirect
 	golang.org/x/exp v0.0.0-20250408133849-7e4ce0ab07d0 // indirect
 	golang.org/x/mod v0.24.0 // indirect
 	golang.org/x/sync v0.13.0 // indirect
